@@ -31,7 +31,7 @@ ClientStep ==
   /\ LET e == Lines[l + 1] IN
      IF e.skip THEN UNCHANGED vars      \* the driver could not issue the step in the state the runner was in
      ELSE CASE e.op = "schedule" -> Schedule(e.p, e.bad)
-            [] e.op = "cancel"   -> Cancel(e.j)
+            [] e.op = "cancel"   -> Cancel(IF e.j = 0 THEN Len(job) + 1 ELSE e.j)    \* (j = 0: an id the runner does not know)
             [] e.op = "poll"     -> Poll(e.j)
             [] e.op = "finish"   -> Finish(e.j, e.t, e.o)
             [] e.op = "tick"     -> Tick \/ (~NeedsTime /\ UNCHANGED vars)
